@@ -21,6 +21,7 @@ KINDS = {
     "arity": ("pair", [1]),
     "badser": ("badser", []),
     "falsy": ("ret1", []),
+    "retfault": ("retfault", []),
 }
 IDS = [i for i in B.IDS if i is not ABSENT]
 WORLDS = [(v, True, d, inst) for v in (2.0, 1.0) for d, inst in (
